@@ -14,7 +14,8 @@
  * ("ddd-t LF ddd t LF"), one symbolic text byte t (any value but LF: NUL in the text is
  * covered, and t = CR makes the line end CRLF), and one symbolic disconnect: phase
  * and byte offset inside that phase's reply at which the connection ends (EOF or
- * error/timeout) - i.e. before the reply, inside it, after its first line ...
+ * error/timeout) - i.e. before the reply, inside it, after its first line ... - and/or one
+ * failing write of a command (phase index: the command of that phase never arrives).
  * The server answers by command verb (RCPT: by the address in the command), so nothing
  * is assumed about the order in which the client sends commands.
  *
@@ -51,6 +52,7 @@ unsigned char sc_dropph;         /* phase whose reply is cut short; >= NPH: conn
 unsigned char sc_dropoff;        /* bytes of that reply delivered before the end */
 int sc_endkind;                  /* 0 EOF, -1 error/timeout */
 unsigned char sc_blastfail;      /* blast contract: 0 ok, 1 write fails before the dot, 2 while sending the dot */
+unsigned char sc_wfail;          /* k >= 1: the write of the k-th command (HELO=1, MAIL=2, RCPT i=2+i, DATA=3+NR) fails; 0: none */
 
 /* ---- server state */
 static int pend = PH_GREET;      /* phase whose reply is being delivered, -1 none */
@@ -59,6 +61,7 @@ static int ended;                /* connection reported ended */
 static int dot_sent;             /* blast put the final dot */
 static int blast_called;
 static int quit_seen;
+static unsigned int ncmd;        /* commands other than QUIT flushed so far */
 static unsigned char cmd[CMDMAX];
 static unsigned int cmdlen;
 static int answered[NPH];        /* reply of this phase completely delivered */
@@ -96,7 +99,7 @@ void sym_inputs(void)
   SYM_ARR(sc_code[7]);
 #endif
   SYM_ARR(sc_cont); SYM_ARR(sc_text);
-  SYM(sc_dropph); SYM(sc_dropoff); SYM(sc_endkind); SYM(sc_blastfail);
+  SYM(sc_dropph); SYM(sc_dropoff); SYM(sc_endkind); SYM(sc_blastfail); SYM(sc_wfail);
 #endif
 }
 
@@ -178,7 +181,14 @@ int ideal_putc(substdio *s, unsigned char c)
 
 int ideal_flush(substdio *s)
 {
-  if (s == &smtpto) { if (cmdlen) server_command(); }
+  if (s == &smtpto) {
+    if (cmdlen) {
+      /* a failing write ends in the real safewrite() calling dropped(); QUIT is not counted:
+       * its failure is covered in dropped.c (it turns the message report into Z) */
+      if (cmd[0] != 'Q' && ++ncmd == sc_wfail) { ended = 1; dropped(); }
+      server_command();
+    }
+  }
   else rep_unflushed = 0;
   return 0;
 }
@@ -202,7 +212,8 @@ void blast(void)
 
 /* ---- the oracle */
 static char rcpt_class(unsigned int c) { return c >= 500 ? 'h' : c >= 400 ? 's' : 'r'; }
-#define CUT(ph) ((int) sc_dropph == (ph))
+/* the connection is lost in phase ph: the write of its command fails, or its reply is cut */
+#define CUT(ph) ((int) sc_dropph == (ph) || ((ph) >= PH_HELO && (ph) <= PH_DATA && (int) sc_wfail == (ph)))
 
 /* reference walk through the dialogue, in protocol order */
 static void ref_walk(void)
@@ -261,12 +272,13 @@ void dropped(void)
   CHECK(rec_start && nrec == exp_nrcpt, "C09: the recipient reports made so far are complete; the message report follows");
   check_rcpt_reports();
   CHECK((flagcritical != 0) == exp_dup, "C09: flagcritical (=> 'Possible duplicate') iff the connection is lost after the final dot was sent");
-  if (exp_dup && CUT(PH_DOT) && sc_dropoff > 0) WITNESS("lost_inside_final_reply");
+  if (exp_dup && (int) sc_dropph == PH_DOT && sc_dropoff > 0) WITNESS("lost_inside_final_reply");
   if (exp_dup && sc_blastfail == 2) WITNESS("lost_while_sending_dot");
   if (!exp_dup && exp_blast && sc_blastfail == 1) WITNESS("lost_while_sending_message");
-  if (CUT(PH_GREET) && sc_dropoff == 0) WITNESS("lost_before_greeting");
-  if (CUT(PH_RCPT0 + NR - 1) && exp_nrcpt == NR - 1) WITNESS("lost_at_last_rcpt");
-  if (sc_endkind == -1 && CUT(PH_DATA)) WITNESS("timeout_at_data");
+  if ((int) sc_dropph == PH_GREET && sc_dropoff == 0) WITNESS("lost_before_greeting");
+  if ((int) sc_dropph == PH_RCPT0 + NR - 1 && exp_nrcpt == NR - 1) WITNESS("lost_at_last_rcpt");
+  if (sc_endkind == -1 && (int) sc_dropph == PH_DATA) WITNESS("timeout_at_data");
+  if ((int) sc_wfail == PH_RCPT0 + NR - 1 && exp_nrcpt == NR - 1 && sc_dropph >= NPH) WITNESS("lost_writing_last_rcpt");
   PATH_END();
 #ifdef VERIF_CBMC
   __CPROVER_assume(0);
@@ -316,7 +328,7 @@ void vmain(void)
     ASSUME(sc_cont[i] <= 1 && sc_text[i] != '\n');
   }
   ASSUME(sc_endkind == 0 || sc_endkind == -1);
-  ASSUME(sc_blastfail <= 2);
+  ASSUME(sc_blastfail <= 2 && sc_wfail <= PH_DATA);
   if (sc_dropph < NPH) { ASSUME(sc_dropoff < reply_len(sc_dropph)); }
   else { ASSUME(sc_dropph == NPH && sc_dropoff == 0); }
   ref_walk();
